@@ -247,13 +247,13 @@ TP = "resonaate.data.events.target_task_priority:"
             fns=[SA + "SensingAgent.appendTimeBiasEvent", SA + "SensingAgent.pruneTimeBiasEvents", TP + "TargetTaskPriority.handleEvent"], mode="R",
             note="a time-bias event is queued once however many steps deliver it, and stays active exactly while start <= epoch <= end; a task-priority event scales exactly the reward row of its target in the engine it is handed to")
 def durations(vc):
-    if not vc.symbolic:
-        for n in ("O-C01-duration.time-bias-queue", "O-C01-duration.time-bias-prune", "O-C01-duration.priority"):
-            vc.ensure(n, True)
-        return
     s, d, now = vc.real("s", 0, 1e6), vc.real("d", 0, 1e5), vc.real("now", 0, 2e6)
     ev = _NS(id=7, start_time_jd=s, end_time_jd=s + d)
-    C = vc.cls(SA + "SensingAgent", extra_methods={"julian_date_epoch": now})
+    if vc.symbolic:
+        C = vc.cls(SA + "SensingAgent", extra_methods={"julian_date_epoch": now})
+    else:
+        C = type("SensingAgentUnderTest", (vc.fn(SA + "SensingAgent"),), {"julian_date_epoch": now})
+        vc.assume(abs(now - s) > 1e-9 and abs(now - s - d) > 1e-9)
     a = object.__new__(C)
     a.__dict__.update(sensor_time_bias_event_queue=[])
     a.appendTimeBiasEvent(ev)
@@ -267,7 +267,7 @@ def durations(vc):
     R = vc.mat("R", 3, 2, -10, 10)
     pr = vc.real("prio", 0, 10)
     eng = _NS(reward_matrix=R.copy(), target_indices={40: 0, 41: 1, 42: 2})
-    vc.new(TP + "TargetTaskPriority", agent_id=41, priority=pr).handleEvent(eng)
+    (vc.new(TP + "TargetTaskPriority", agent_id=41, priority=pr) if vc.symbolic else vc.fn(TP + "TargetTaskPriority")(agent_id=41, priority=pr)).handleEvent(eng)
     exp = R.copy()
     exp[1, :] = exp[1, :] * pr
     vc.ensure("O-C01-duration.priority", vc.eq(eng.reward_matrix, exp))
